@@ -1230,7 +1230,10 @@ class SuccessionDiagram:
         Expand the succession diagram and search for attractors using default methods.
         """
         self.expand_block()
-        for node_id in self.node_ids():
+        # Only expanded nodes are searched: block expansion leaves some nodes
+        # unexpanded on purpose, and an unexpanded node would (again) report
+        # every attractor of the expanded nodes inside its trap space.
+        for node_id in list(self.expanded_ids()):
             self.node_attractor_seeds(node_id, compute=True)
 
     def expand_scc(self, find_motif_avoidant_attractors: bool = True) -> bool:
